@@ -315,7 +315,7 @@ theorem c17_no_abort_after_commit_counterexample_resetfence :
     owner is task `(x,k)`.  A single command whose task guard and runtime guard name the SAME channel
     (hypothesis `SameChannel`) and whose task is not the owner leaves the four fence fields of `x`
     exactly as they were. -/
-theorem c17_foreign_fence_safe_partial (db : State) (c : Cmd) (SameChannel : c.g.chan = c.rg.chan)
+theorem c17_foreign_fence_safe_partial (db : State) (c : Cmd) (SameChannel : c.kind.isTaskMeta = true → c.g.chan = c.rg.chan)
     (x : Nat) (m : Meta) (hm : db.meta? x = some m) (hf : m.ftok ≠ 0)
     (hforeign : ¬ (c.g.chan = x ∧ c.g.id = m.ftok)) :
     ((applySingle db c).1.meta? x).map Meta.fence = some m.fence := by
@@ -327,7 +327,8 @@ theorem c17_foreign_fence_safe_partial (db : State) (c : Cmd) (SameChannel : c.g
     | create ws _ _ hw => rw [meta?_of_metas _ _ (upsert_lookup db _ ws hw).2, hm]; rfl
     | taskOnly t nt ws _ _ _ _ hw => rw [meta?_of_metas _ _ (upsert_lookup db _ ws hw).2, hm]; rfl
     | gc _ => rw [meta?_of_metas _ _ (dels_lookup db _ (gc_dels db c.before c.limit)).1, hm]; rfl
-    | taskMeta t0 nt m0 nm0 ws' _ ht0 hm0 hmut hg _ _ _ _ hw =>
+    | taskMeta t0 nt m0 nm0 ws' hkTM ht0 hm0 hmut hg _ _ _ _ hw =>
+      have SameChannel := SameChannel hkTM
       rw [applyWs_append, applyWs_cons, applyWs_nil, meta?_putMeta]
       split
       · rename_i hx
@@ -367,10 +368,36 @@ example : ((applySingle exForeignState { exCrossClear with g := { exCrossClear.g
     clears the fence that ("cb","t1") holds on channel "cb" (and completes while the fence on its
     own channel stays set).  (Reproduced on the real FSM.) -/
 theorem c17_foreign_fence_cross_channel_counterexample :
+    WK.Gen.C17.transitionChecksGuardChannel = false →
     (exForeignState.meta? 2).map Meta.fence = some (1, 1, 1, 200) ∧
     ((applySingle exForeignState exCrossClear).1.meta? 2).map Meta.fence = some (0, 2, 0, 0) ∧
     ((applySingle exForeignState exCrossClear).1.task? 2 1).map (·.ftok) = some 1 := by
   decide
+
+/-- a request whose two guards name different channels is rejected by request validation, if the
+    current source has that check (`WK.Gen.C17`, regenerated from the Go source on every run) -/
+theorem cross_channel_rejected (h1 : WK.Gen.C17.transitionChecksGuardChannel = true)
+    (h2 : WK.Gen.C17.fenceRequestChecksGuardChannel = true) (db : State) (c : Cmd)
+    (hk : c.kind.isTaskMeta = true) (hne : c.g.chan ≠ c.rg.chan) : (applySingle db c).1 = db := by
+  have hb : (c.g.chan != c.rg.chan) = true := by simp; exact hne
+  unfold applySingle stageCmd
+  cases hkk : c.kind <;> simp [hkk, Kind.isTaskMeta] at hk <;> simp [validTransition, h1, h2, hb, staleAtStaging]
+
+/-- **Foreign fence safety (full)** — holds of the code once both request validators compare the
+    guard channels (vacuous on a tree where `WK.Gen.C17` says they do not). -/
+theorem c17_foreign_fence_safe_full (h1 : WK.Gen.C17.transitionChecksGuardChannel = true)
+    (h2 : WK.Gen.C17.fenceRequestChecksGuardChannel = true) (db : State) (c : Cmd)
+    (x : Nat) (m : Meta) (hm : db.meta? x = some m) (hf : m.ftok ≠ 0)
+    (hforeign : ¬ (c.g.chan = x ∧ c.g.id = m.ftok)) :
+    ((applySingle db c).1.meta? x).map Meta.fence = some m.fence := by
+  by_cases hs : c.kind.isTaskMeta = true → c.g.chan = c.rg.chan
+  · exact c17_foreign_fence_safe_partial db c hs x m hm hf hforeign
+  · have hk : c.kind.isTaskMeta = true := by
+      cases hx : c.kind.isTaskMeta with
+      | true => rfl
+      | false => exact absurd (fun h => by rw [hx] at h; cases h) hs
+    have hne : c.g.chan ≠ c.rg.chan := fun e => hs (fun _ => e)
+    rw [cross_channel_rejected h1 h2 db c hk hne, hm]; rfl
 
 /-! ## 5. stored metadata stays valid -/
 
